@@ -1,3 +1,760 @@
-From Coq Require Import ZArith List Bool Reals QArith Qreals Lra Lia Psatz.
+(** C18 - proofs.  R instance = object of the theorems; Q instance = what the correspondence executes;
+    the [_Q_R] lemmas at the end show they compute the same values. *)
+From Coq Require Import ZArith QArith Qround Qreals Qabs Reals List Bool Lra Lia Psatz Permutation Morphisms.
 From HV Require Import Common.Generic C18.Model.
 Import ListNotations.
+Local Open Scope R_scope.
+
+Ltac ro := cbn [zero one add mul sub opp inv ltb leb eqb ofZ RO] in *.
+
+(** * sums *)
+Lemma tsum_app (a b : list R) : tsum RO (a ++ b) = tsum RO a + tsum RO b.
+Proof. induction a as [|x t IH]; simpl; ro; [lra|rewrite IH; lra]. Qed.
+
+Lemma tsum_map_scal {A} (g : A -> R) c (l : list A) :
+  tsum RO (map (fun v => g v * c) l) = tsum RO (map g l) * c.
+Proof. induction l as [|x t IH]; simpl; ro; [lra|rewrite IH; lra]. Qed.
+
+Lemma tsum_map_add {A} (g h : A -> R) (l : list A) :
+  tsum RO (map (fun v => g v + h v) l) = tsum RO (map g l) + tsum RO (map h l).
+Proof. induction l as [|x t IH]; simpl; ro; [lra|rewrite IH; lra]. Qed.
+
+Lemma tsum_perm (a b : list R) : Permutation a b -> tsum RO a = tsum RO b.
+Proof. induction 1; simpl; ro; lra. Qed.
+
+Lemma tnat_S k : tnat RO (S k) = tnat RO k + 1.
+Proof. unfold tnat; ro. rewrite Nat2Z.inj_succ, succ_IZR. reflexivity. Qed.
+Lemma tnat_0 : tnat RO 0 = 0. Proof. reflexivity. Qed.
+Lemma tnat_nonneg k : 0 <= tnat RO k.
+Proof. unfold tnat; ro. apply IZR_le. lia. Qed.
+Lemma tnat_pos k : (0 < k)%nat -> 0 < tnat RO k.
+Proof. intros H. unfold tnat; ro. apply IZR_lt. lia. Qed.
+Lemma tnat_ge k m : (m <= k)%nat -> tnat RO m <= tnat RO k.
+Proof. intros H. unfold tnat; ro. apply IZR_le. lia. Qed.
+
+(** * normalize *)
+Lemma tlen_nonzero (l : list R) : tsum RO l <> 0 -> tlen RO l <> 0.
+Proof. intros H. destruct l as [|x t]; [exfalso; apply H; reflexivity|].
+  unfold tlen. pose proof (tnat_pos (length (x :: t)) ltac:(simpl; lia)). lra. Qed.
+
+Lemma normalize_as_scal (l : list R) :
+  normalize RO l = map (fun v => v * (/ tsum RO l * tlen RO l)) l.
+Proof. unfold normalize. apply map_ext. intros v. ro. ring. Qed.
+
+Lemma normalize_length (l : list R) : length (normalize RO l) = length l.
+Proof. unfold normalize. apply map_length. Qed.
+
+Lemma normalize_sum (l : list R) : tsum RO l <> 0 -> tsum RO (normalize RO l) = tlen RO l.
+Proof. intros H. rewrite normalize_as_scal.
+  rewrite (tsum_map_scal (fun v => v)), map_id. field. exact H. Qed.
+
+Lemma normalize_mean1 (l : list R) : tsum RO l <> 0 -> tmean RO (normalize RO l) = 1.
+Proof. intros H. unfold tmean. rewrite normalize_sum by exact H.
+  unfold tlen. rewrite normalize_length. ro. apply Rinv_r. apply (tlen_nonzero l H). Qed.
+
+Lemma normalize_idem (l : list R) : tsum RO l <> 0 -> normalize RO (normalize RO l) = normalize RO l.
+Proof. intros H. rewrite (normalize_as_scal (normalize RO l)).
+  rewrite normalize_sum by exact H. unfold tlen at 1 2. rewrite normalize_length. fold (tlen RO l).
+  rewrite <- (map_id (normalize RO l)) at 2. apply map_ext. intros v. field. apply tlen_nonzero, H. Qed.
+
+Lemma normalize_scale_inv (l : list R) c : c <> 0 -> tsum RO l <> 0 ->
+  normalize RO (map (fun v => c * v) l) = normalize RO l.
+Proof. intros Hc H. rewrite !normalize_as_scal. rewrite map_map. unfold tlen. rewrite map_length.
+  replace (tsum RO (map (fun v => c * v) l)) with (tsum RO l * c).
+  - apply map_ext. intros v. field. split; assumption.
+  - rewrite <- (map_id l) at 1. rewrite <- (tsum_map_scal (fun v => v)). f_equal. apply map_ext. intros; ring. Qed.
+
+(** the hypothesis cannot be dropped: a zero-sum image is sent to a zero image (1/0 = 0 in the model;
+    inf/nan in numpy) *)
+
+(** * all_some / tabulate *)
+Lemma seq_opt_inv {A} (l : list (option A)) r : seq_opt l = Some r -> l = map Some r.
+Proof. revert r; induction l as [|[x|] t IH]; intros r H; simpl in H.
+  - inversion H; reflexivity.
+  - destruct (seq_opt t) as [r'|]; [|discriminate]. inversion H; subst. simpl. f_equal. apply IH. reflexivity.
+  - discriminate. Qed.
+Lemma seq_opt_Some {A} (r : list A) : seq_opt (map Some r) = Some r.
+Proof. induction r as [|x t IH]; simpl; [reflexivity|rewrite IH; reflexivity]. Qed.
+Lemma seq_opt_None {A} (l : list (option A)) : In None l -> seq_opt l = None.
+Proof. induction l as [|[x|] t IH]; intros H; simpl; [destruct H| |reflexivity].
+  destruct H as [H|H]; [discriminate|]. rewrite (IH H). reflexivity. Qed.
+
+Lemma nth_map_seq {A} (g : nat -> A) n k d : (k < n)%nat -> nth k (map g (seq 0 n)) d = g k.
+Proof. intros H. rewrite (nth_indep _ d (g 0%nat)) by (rewrite map_length, seq_length; exact H).
+  rewrite (map_nth g (seq 0 n) 0%nat k). rewrite seq_nth by exact H. reflexivity. Qed.
+
+Lemma tabulate_nth {A} nx ny (g : nat -> nat -> A) i j d d' : (i < nx)%nat -> (j < ny)%nat ->
+  nth j (nth i (tabulate nx ny g) d') d = g i j.
+Proof. intros Hi Hj. unfold tabulate. rewrite nth_map_seq by exact Hi. apply nth_map_seq, Hj. Qed.
+
+Lemma all_some_total {A} nx ny (g : nat -> nat -> option A) (h : nat -> nat -> A) :
+  (forall i j, (i < nx)%nat -> (j < ny)%nat -> g i j = Some (h i j)) ->
+  all_some (tabulate nx ny g) = Some (tabulate nx ny h).
+Proof. intros H. unfold all_some, tabulate. rewrite map_map.
+  rewrite (map_ext_in _ (fun i => Some (map (fun j => h i j) (seq 0 ny)))).
+  - rewrite <- (map_map (fun i => map (fun j => h i j) (seq 0 ny)) Some). apply seq_opt_Some.
+  - intros i Hi. apply in_seq in Hi.
+    rewrite (map_ext_in _ (fun j => Some (h i j))).
+    + rewrite <- (map_map (fun j => h i j) Some). apply seq_opt_Some.
+    + intros j Hj. apply in_seq in Hj. apply H; lia. Qed.
+
+Lemma all_some_none {A} nx ny (g : nat -> nat -> option A) i j :
+  (i < nx)%nat -> (j < ny)%nat -> g i j = None -> all_some (tabulate nx ny g) = None.
+Proof. intros Hi Hj H. unfold all_some, tabulate. apply seq_opt_None. rewrite map_map.
+  apply in_map_iff. exists i. split; [|apply in_seq; lia].
+  apply seq_opt_None. apply in_map_iff. exists j. split; [exact H|apply in_seq; lia]. Qed.
+
+Lemma all_some_sound {A} nx ny (g : nat -> nat -> option A) rows d :
+  all_some (tabulate nx ny g) = Some rows ->
+  forall i j, (i < nx)%nat -> (j < ny)%nat -> g i j = Some (nth j (nth i rows []) d).
+Proof. intros H i j Hi Hj. unfold all_some in H. apply seq_opt_inv in H.
+  assert (E : nth i (map seq_opt (tabulate nx ny g)) None = nth i (map Some rows) None) by (rewrite H; reflexivity).
+  assert (Li : (i < length (tabulate nx ny g))%nat) by (unfold tabulate; rewrite map_length, seq_length; exact Hi).
+  rewrite (nth_indep _ None (seq_opt [])) in E by (rewrite map_length; exact Li).
+  rewrite (map_nth seq_opt) in E.
+  assert (Lr : (i < length rows)%nat).
+  { apply (f_equal (@length _)) in H. rewrite !map_length in H. rewrite <- H. exact Li. }
+  rewrite (nth_indep _ None (Some [])) in E by (rewrite map_length; exact Lr).
+  rewrite (map_nth Some) in E. apply seq_opt_inv in E.
+  rewrite <- (tabulate_nth nx ny g i j None [] Hi Hj). rewrite E.
+  assert (Lj : (j < length (nth i rows []))%nat).
+  { apply (f_equal (@length _)) in E. rewrite map_length in E. rewrite <- E.
+    unfold tabulate. rewrite nth_map_seq by exact Hi. rewrite map_length, seq_length. exact Hj. }
+  rewrite (nth_indep _ None (Some d)) by (rewrite map_length; exact Lj).
+  apply (map_nth Some). Qed.
+
+(** * zero_filter *)
+Lemma interp1_pos n xc (v : nat -> R) i : 0 < v i -> interp1 RO n xc v i = Some (v i).
+Proof. intros H. unfold interp1; ro. rewrite (proj2 (Rltb_true _ _) H). reflexivity. Qed.
+
+Lemma interp1_first n xc (v : nat -> R) : v 0%nat <= 0 -> interp1 RO n xc v 0 = None.
+Proof. intros H. unfold interp1; ro. rewrite (proj2 (Rltb_false _ _) H). reflexivity. Qed.
+
+Lemma interp1_last n xc (v : nat -> R) i : v i <= 0 -> (n <= S i)%nat -> interp1 RO n xc v i = None.
+Proof. intros H Hn. unfold interp1; ro. rewrite (proj2 (Rltb_false _ _) H).
+  replace (n - 1 - i)%nat with 0%nat by lia. simpl. destruct (prev_pos RO v i); reflexivity. Qed.
+
+(** isolated dead sample between two live ones: numpy.interp's two-point formula *)
+Lemma interp1_gap1 n xc (v : nat -> R) i : v (S i) <= 0 -> 0 < v i -> 0 < v (S (S i)) -> (S (S i) < n)%nat ->
+  interp1 RO n xc v (S i) =
+  Some ((v (S (S i)) - v i) / (xc (S (S i)) - xc i) * (xc (S i) - xc i) + v i).
+Proof. intros H0 Ha Hb Hn. unfold interp1; ro. rewrite (proj2 (Rltb_false _ _) H0).
+  simpl prev_pos; ro. rewrite (proj2 (Rltb_true _ _) Ha).
+  destruct (n - 1 - S i)%nat as [|fu] eqn:E; [lia|]. simpl next_pos; ro.
+  rewrite (proj2 (Rltb_true _ _) Hb). reflexivity. Qed.
+
+(** ... which is the mean of the two neighbours when the dead sample sits midway between them *)
+Lemma interp1_gap1_mid n xc (v : nat -> R) i : v (S i) <= 0 -> 0 < v i -> 0 < v (S (S i)) -> (S (S i) < n)%nat ->
+  xc (S (S i)) - xc (S i) = xc (S i) - xc i -> xc (S i) <> xc i ->
+  interp1 RO n xc v (S i) = Some ((v i + v (S (S i))) / 2).
+Proof. intros H0 Ha Hb Hn Hs Hd. rewrite interp1_gap1 by assumption. f_equal.
+  assert (E : xc (S (S i)) = 2 * xc (S i) - xc i) by lra. rewrite E. field. lra. Qed.
+
+Lemma zf_positive_kept nx ny xc yc (f : image (T:=R)) i j : 0 < f i j ->
+  zf_pix RO nx ny xc yc f i j = Some (f i j).
+Proof. intros H. unfold zf_pix. rewrite !interp1_pos by exact H. f_equal. unfold two; ro. field. Qed.
+
+Definition midway (xc : nat -> R) (i : nat) : Prop :=
+  xc (S (S i)) - xc (S i) = xc (S i) - xc i /\ xc (S i) <> xc i.
+
+Lemma zf_isolated_interior nx ny xc yc (f : image (T:=R)) i j :
+  f (S i) (S j) <= 0 -> 0 < f i (S j) -> 0 < f (S (S i)) (S j) -> 0 < f (S i) j -> 0 < f (S i) (S (S j)) ->
+  (S (S i) < nx)%nat -> (S (S j) < ny)%nat -> midway xc i -> midway yc j ->
+  zf_pix RO nx ny xc yc f (S i) (S j) =
+  Some ((f i (S j) + f (S (S i)) (S j) + f (S i) j + f (S i) (S (S j))) / 4).
+Proof. intros H0 H1 H2 H3 H4 Hx Hy [Mx Mx'] [My My']. unfold zf_pix.
+  rewrite (interp1_gap1_mid nx xc (fun i' => f i' (S j)) i) by assumption.
+  rewrite (interp1_gap1_mid ny yc (fun j' => f (S i) j') j) by assumption.
+  f_equal. unfold two; ro. field. Qed.
+
+(** edges: no bracket across the edge, so only the interpolation along the edge contributes *)
+Lemma zf_edge_x0 nx ny xc yc (f : image (T:=R)) j :
+  f 0%nat (S j) <= 0 -> 0 < f 0%nat j -> 0 < f 0%nat (S (S j)) -> (S (S j) < ny)%nat -> midway yc j ->
+  zf_pix RO nx ny xc yc f 0 (S j) = Some ((f 0%nat j + f 0%nat (S (S j))) / 2).
+Proof. intros H0 H1 H2 Hy [My My']. unfold zf_pix.
+  rewrite (interp1_first nx xc (fun i' => f i' (S j))) by exact H0.
+  rewrite (interp1_gap1_mid ny yc (fun j' => f 0%nat j') j) by assumption. reflexivity. Qed.
+Lemma zf_edge_x1 nx ny xc yc (f : image (T:=R)) i j : (nx <= S i)%nat ->
+  f i (S j) <= 0 -> 0 < f i j -> 0 < f i (S (S j)) -> (S (S j) < ny)%nat -> midway yc j ->
+  zf_pix RO nx ny xc yc f i (S j) = Some ((f i j + f i (S (S j))) / 2).
+Proof. intros Hi H0 H1 H2 Hy [My My']. unfold zf_pix.
+  rewrite (interp1_last nx xc (fun i' => f i' (S j)) i) by assumption.
+  rewrite (interp1_gap1_mid ny yc (fun j' => f i j') j) by assumption. reflexivity. Qed.
+Lemma zf_edge_y0 nx ny xc yc (f : image (T:=R)) i :
+  f (S i) 0%nat <= 0 -> 0 < f i 0%nat -> 0 < f (S (S i)) 0%nat -> (S (S i) < nx)%nat -> midway xc i ->
+  zf_pix RO nx ny xc yc f (S i) 0 = Some ((f i 0%nat + f (S (S i)) 0%nat) / 2).
+Proof. intros H0 H1 H2 Hx [Mx Mx']. unfold zf_pix.
+  rewrite (interp1_gap1_mid nx xc (fun i' => f i' 0%nat) i) by assumption.
+  rewrite (interp1_first ny yc (fun j' => f (S i) j')) by exact H0. reflexivity. Qed.
+Lemma zf_edge_y1 nx ny xc yc (f : image (T:=R)) i j : (ny <= S j)%nat ->
+  f (S i) j <= 0 -> 0 < f i j -> 0 < f (S (S i)) j -> (S (S i) < nx)%nat -> midway xc i ->
+  zf_pix RO nx ny xc yc f (S i) j = Some ((f i j + f (S (S i)) j) / 2).
+Proof. intros Hj H0 H1 H2 Hx [Mx Mx']. unfold zf_pix.
+  rewrite (interp1_gap1_mid nx xc (fun i' => f i' j) i) by assumption.
+  rewrite (interp1_last ny yc (fun j' => f (S i) j') j) by assumption. reflexivity. Qed.
+
+(** corners: no bracket on either axis *)
+Definition is_corner (nx ny i j : nat) : Prop := (i = 0%nat \/ nx = S i) /\ (j = 0%nat \/ ny = S j).
+Lemma zf_corner_pix nx ny xc yc (f : image (T:=R)) i j : is_corner nx ny i j -> f i j <= 0 ->
+  zf_pix RO nx ny xc yc f i j = None.
+Proof. intros [Hi Hj] H0. unfold zf_pix.
+  assert (E1 : interp1 RO nx xc (fun i' => f i' j) i = None).
+  { destruct Hi as [->|Hi]; [apply interp1_first; exact H0|apply interp1_last; [exact H0|lia]]. }
+  assert (E2 : interp1 RO ny yc (fun j' => f i j') j = None).
+  { destruct Hj as [->|Hj]; [apply interp1_first; exact H0|apply interp1_last; [exact H0|lia]]. }
+  rewrite E1, E2. reflexivity. Qed.
+Lemma zf_corner_rejected nx ny xc yc (f : image (T:=R)) i j : is_corner nx ny i j -> (i < nx)%nat -> (j < ny)%nat ->
+  f i j <= 0 -> zero_filter RO nx ny xc yc f = None.
+Proof. intros Hc Hi Hj H0. unfold zero_filter. apply (all_some_none nx ny _ i j Hi Hj).
+  apply zf_corner_pix; assumption. Qed.
+
+(** whole-image readings of the result *)
+Lemma zero_filter_sound nx ny xc yc (f : image (T:=R)) rows : zero_filter RO nx ny xc yc f = Some rows ->
+  forall i j, (i < nx)%nat -> (j < ny)%nat -> zf_pix RO nx ny xc yc f i j = Some (getpix RO rows i j).
+Proof. intros H i j Hi Hj. unfold getpix. apply (all_some_sound nx ny _ rows (zero RO) H i j Hi Hj). Qed.
+Lemma zero_filter_refuses nx ny xc yc (f : image (T:=R)) i j : (i < nx)%nat -> (j < ny)%nat ->
+  zf_pix RO nx ny xc yc f i j = None -> zero_filter RO nx ny xc yc f = None.
+Proof. intros Hi Hj H. apply (all_some_none nx ny _ i j Hi Hj H). Qed.
+Lemma zero_filter_all_positive nx ny xc yc (f : image (T:=R)) :
+  (forall i j, (i < nx)%nat -> (j < ny)%nat -> 0 < f i j) ->
+  zero_filter RO nx ny xc yc f = Some (tabulate nx ny f).
+Proof. intros H. apply all_some_total. intros i j Hi Hj. apply zf_positive_kept, H; assumption. Qed.
+
+(** * bg_correct *)
+Lemma bg_pix_formula nx ny xc yc (raw bg df : image (T:=R)) i j : 0 < bg i j - df i j ->
+  bgc_pix RO nx ny xc yc raw bg df i j = Some ((raw i j - df i j) / (bg i j - df i j)).
+Proof. intros H. unfold bgc_pix. rewrite zf_positive_kept by (unfold imsub; ro; exact H). reflexivity. Qed.
+
+Lemma bg_formula nx ny xc yc (raw bg df : image (T:=R)) :
+  (forall i j, (i < nx)%nat -> (j < ny)%nat -> 0 < bg i j - df i j) ->
+  bg_correct RO true nx ny xc yc raw bg df =
+  Some (tabulate nx ny (fun i j => (raw i j - df i j) / (bg i j - df i j))).
+Proof. intros H. unfold bg_correct. apply all_some_total. intros i j Hi Hj. apply bg_pix_formula, H; assumption. Qed.
+
+Lemma bg_self_one nx ny xc yc (raw : image (T:=R)) :
+  (forall i j, (i < nx)%nat -> (j < ny)%nat -> 0 < raw i j) ->
+  bg_correct RO true nx ny xc yc raw raw (zero_img RO) = Some (tabulate nx ny (fun _ _ => 1)).
+Proof. intros H. unfold bg_correct. apply all_some_total. intros i j Hi Hj.
+  rewrite bg_pix_formula by (unfold zero_img; ro; specialize (H i j Hi Hj); lra).
+  f_equal. unfold zero_img; ro. specialize (H i j Hi Hj). field. lra. Qed.
+
+Lemma bg_guard_false nx ny xc yc (raw bg df : image (T:=R)) : bg_correct RO false nx ny xc yc raw bg df = None.
+Proof. reflexivity. Qed.
+
+Lemma bg_dead_corner nx ny xc yc (raw bg df : image (T:=R)) g i j : is_corner nx ny i j -> (i < nx)%nat -> (j < ny)%nat ->
+  bg i j - df i j <= 0 -> bg_correct RO g nx ny xc yc raw bg df = None.
+Proof. intros Hc Hi Hj H. destruct g; [|reflexivity]. unfold bg_correct.
+  apply (all_some_none nx ny _ i j Hi Hj). unfold bgc_pix.
+  rewrite zf_corner_pix by (try assumption; unfold imsub; ro; exact H). reflexivity. Qed.
+
+(** * detrend *)
+Lemma idx_sum_S n (g : nat -> R) : idx_sum RO (S n) g = idx_sum RO n g + g n.
+Proof. unfold idx_sum. rewrite seq_S, map_app, tsum_app. simpl; ro. lra. Qed.
+Lemma idx_sum_ext n (g h : nat -> R) : (forall i, (i < n)%nat -> g i = h i) -> idx_sum RO n g = idx_sum RO n h.
+Proof. intros H. unfold idx_sum. f_equal. apply map_ext_in. intros i Hi. apply in_seq in Hi. apply H. lia. Qed.
+Lemma idx_sum_add n (g h : nat -> R) : idx_sum RO n (fun i => g i + h i) = idx_sum RO n g + idx_sum RO n h.
+Proof. apply tsum_map_add. Qed.
+Lemma idx_sum_scal n (g : nat -> R) c : idx_sum RO n (fun i => c * g i) = c * idx_sum RO n g.
+Proof. unfold idx_sum. rewrite <- (Rmult_comm (tsum RO (map g (seq 0 n)))), <- tsum_map_scal.
+  f_equal. apply map_ext. intros; ring. Qed.
+Lemma idx_sum_const n c : idx_sum RO n (fun _ => c) = c * tnat RO n.
+Proof. induction n as [|n IH]; [unfold idx_sum, tnat; simpl; ro; ring|].
+  rewrite idx_sum_S, IH, tnat_S. ring. Qed.
+
+Lemma sum1_closed n : 2 * idx_sum RO n (tnat RO) = tnat RO n * (tnat RO n - 1).
+Proof. induction n as [|n IH]; [unfold idx_sum, tnat; simpl; ro; ring|].
+  rewrite idx_sum_S, tnat_S, Rmult_plus_distr_l, IH. ring. Qed.
+Lemma sum2_closed n :
+  6 * idx_sum RO n (fun i => tnat RO i * tnat RO i) = (tnat RO n - 1) * tnat RO n * (2 * tnat RO n - 1).
+Proof. induction n as [|n IH]; [unfold idx_sum, tnat; simpl; ro; ring|].
+  rewrite idx_sum_S, tnat_S, Rmult_plus_distr_l, IH. ring. Qed.
+
+(** the normal-equation determinant n*S2 - S1^2 = n^2 (n^2-1) / 12 is non-zero from two samples on *)
+Lemma lsq_det n : (2 <= n)%nat ->
+  tnat RO n * idx_sum RO n (fun i => tnat RO i * tnat RO i) - idx_sum RO n (tnat RO) * idx_sum RO n (tnat RO) <> 0.
+Proof. intros Hn. set (N := tnat RO n). set (S1 := idx_sum RO n (tnat RO)).
+  set (S2 := idx_sum RO n (fun i => tnat RO i * tnat RO i)).
+  assert (H1 : 2 * S1 = N * (N - 1)) by apply sum1_closed.
+  assert (H2 : 6 * S2 = (N - 1) * N * (2 * N - 1)) by apply sum2_closed.
+  assert (HN : 2 <= N) by (apply (tnat_ge n 2 Hn)).
+  assert (E : 12 * (N * S2 - S1 * S1) = N * N * (N - 1) * (N + 1)).
+  { replace (12 * (N * S2 - S1 * S1)) with (2 * N * (6 * S2) - 3 * ((2 * S1) * (2 * S1))) by ring.
+    rewrite H1, H2. ring. }
+  assert (P : 0 < N * N * (N - 1) * (N + 1)).
+  { apply Rmult_lt_0_compat; [apply Rmult_lt_0_compat; [apply Rmult_lt_0_compat|]|]; lra. }
+  lra. Qed.
+
+Lemma dt_seq_ext n (u v : nat -> R) k : (forall i, (i < n)%nat -> u i = v i) -> u k = v k ->
+  dt_seq RO n u k = dt_seq RO n v k.
+Proof. intros H Hk. unfold dt_seq. rewrite Hk. rewrite (idx_sum_ext n u v H).
+  rewrite (idx_sum_ext n (fun i => mul RO (tnat RO i) (u i)) (fun i => mul RO (tnat RO i) (v i)))
+    by (intros i Hi; rewrite (H i Hi); reflexivity).
+  reflexivity. Qed.
+
+Lemma dt_seq_add n (u v : nat -> R) k :
+  dt_seq RO n (fun i => u i + v i) k = dt_seq RO n u k + dt_seq RO n v k.
+Proof. unfold dt_seq; ro. rewrite idx_sum_add.
+  rewrite (idx_sum_ext n (fun i => tnat RO i * (u i + v i)) (fun i => tnat RO i * u i + tnat RO i * v i))
+    by (intros; ring).
+  rewrite idx_sum_add. ring. Qed.
+
+Lemma dt_seq_scal n (u : nat -> R) c k : dt_seq RO n (fun i => c * u i) k = c * dt_seq RO n u k.
+Proof. unfold dt_seq; ro. rewrite idx_sum_scal.
+  rewrite (idx_sum_ext n (fun i => tnat RO i * (c * u i)) (fun i => c * (tnat RO i * u i))) by (intros; ring).
+  rewrite idx_sum_scal. ring. Qed.
+
+(** the least-squares line through an affine sequence is that sequence *)
+Lemma dt_seq_affine n a b k : (k < n)%nat -> dt_seq RO n (fun i => a + b * tnat RO i) k = 0.
+Proof. intros Hk. destruct (le_lt_dec 2 n) as [Hn|Hn].
+  - pose proof (lsq_det n Hn) as HD. assert (HN : tnat RO n <> 0) by (pose proof (tnat_pos n ltac:(lia)); lra).
+    unfold dt_seq; ro.
+    rewrite idx_sum_add, idx_sum_const, idx_sum_scal.
+    rewrite (idx_sum_ext n (fun i => tnat RO i * (a + b * tnat RO i))
+                           (fun i => a * tnat RO i + b * (tnat RO i * tnat RO i))) by (intros; ring).
+    rewrite idx_sum_add, !idx_sum_scal.
+    set (N := tnat RO n) in *. set (S1 := idx_sum RO n (tnat RO)) in *.
+    set (S2 := idx_sum RO n (fun i => tnat RO i * tnat RO i)) in *.
+    field. split; assumption.
+  - assert (n = 1%nat) by lia. subst n. assert (k = 0%nat) by lia. subst k.
+    unfold dt_seq, idx_sum; simpl; ro. unfold tnat; simpl; ro. rewrite Rinv_1. ring. Qed.
+
+(** detrend with the 1-D detrender as an ORACLE: any [dt] that is additive, depends only on the samples
+    it is given, and annihilates affine sequences removes every plane.  (scipy.signal.detrend enters
+    this way; the model's least-squares [dt_seq] is shown to satisfy the three hypotheses.) *)
+Section DetrendOracle.
+Variable dt : nat -> (nat -> R) -> nat -> R.
+Hypothesis dt_add : forall n u v k, dt n (fun i => u i + v i) k = dt n u k + dt n v k.
+Hypothesis dt_ext : forall n u v k, (forall i, (i < n)%nat -> u i = v i) -> u k = v k -> dt n u k = dt n v k.
+Hypothesis dt_affine : forall n a b k, (k < n)%nat -> dt n (fun i => a + b * tnat RO i) k = 0.
+Definition detrend_with (nx ny : nat) (f : image (T:=R)) : image (T:=R) :=
+  fun i j => dt ny (fun j' => dt nx (fun i' => f i' j') i) j.
+
+Lemma detrend_with_plane_x nx (f : image (T:=R)) a b c i j' : (i < nx)%nat ->
+  dt nx (fun i' => imadd RO f (plane RO a b c) i' j') i = dt nx (fun i' => f i' j') i.
+Proof. intros Hi. unfold imadd, plane; ro. rewrite dt_add.
+  rewrite (dt_ext nx (fun i' => a + b * tnat RO i' + c * tnat RO j') (fun i' => (a + c * tnat RO j') + b * tnat RO i'))
+    by (intros; ring).
+  rewrite dt_affine by exact Hi. ring. Qed.
+
+Lemma detrend_with_plane nx ny f a b c i j : (i < nx)%nat -> (j < ny)%nat ->
+  detrend_with nx ny (imadd RO f (plane RO a b c)) i j = detrend_with nx ny f i j.
+Proof. intros Hi Hj. unfold detrend_with. apply dt_ext; intros; apply detrend_with_plane_x; exact Hi. Qed.
+
+Lemma detrend_with_of_plane nx ny a b c i j : (i < nx)%nat -> (j < ny)%nat ->
+  detrend_with nx ny (plane RO a b c) i j = 0.
+Proof. intros Hi Hj. unfold detrend_with.
+  rewrite (dt_ext ny _ (fun j' => 0 + 0 * tnat RO j')).
+  - apply dt_affine, Hj.
+  - intros j' _. unfold plane; ro.
+    rewrite (dt_ext nx _ (fun i' => (a + c * tnat RO j') + b * tnat RO i')) by (intros; ring).
+    rewrite dt_affine by exact Hi. ring.
+  - unfold plane; ro.
+    rewrite (dt_ext nx _ (fun i' => (a + c * tnat RO j) + b * tnat RO i')) by (intros; ring).
+    rewrite dt_affine by exact Hi. ring. Qed.
+End DetrendOracle.
+
+Lemma detrend_is_detrend_with nx ny f : detrend RO nx ny f = detrend_with (dt_seq RO) nx ny f.
+Proof. reflexivity. Qed.
+
+Lemma detrend_plane nx ny (f : image (T:=R)) a b c i j : (i < nx)%nat -> (j < ny)%nat ->
+  detrend RO nx ny (imadd RO f (plane RO a b c)) i j = detrend RO nx ny f i j.
+Proof. apply (detrend_with_plane (dt_seq RO) dt_seq_add dt_seq_ext dt_seq_affine). Qed.
+Lemma detrend_of_plane nx ny a b c i j : (i < nx)%nat -> (j < ny)%nat -> detrend RO nx ny (plane RO a b c) i j = 0.
+Proof. apply (detrend_with_of_plane (dt_seq RO) dt_seq_ext dt_seq_affine). Qed.
+
+(** * Accumulator (Welford) *)
+Definition sumsq (l : list R) : R := tsum RO (map (fun x => x * x) l).
+Definition acc_inv (a : acc (T:=R)) (l : list R) : Prop :=
+  let '(n, m, v) := a in
+  n = Z.of_nat (length l) /\ (l <> [] -> IZR n * m = tsum RO l /\ v = sumsq l - IZR n * m * m).
+
+Lemma sumsq_app l x : sumsq (l ++ [x]) = sumsq l + x * x.
+Proof. unfold sumsq. rewrite map_app, tsum_app. simpl; ro. lra. Qed.
+
+Lemma push_inv a l x : acc_inv a l -> acc_inv (push RO a x) (l ++ [x]).
+Proof. destruct a as [[n m] v]. intros [Hn Hl]. unfold push.
+  destruct (Z.eqb_spec (n + 1) 1) as [E|E].
+  - assert (l = []) by (destruct l; [reflexivity|cbn [length] in Hn; lia]). subst l. simpl. ro.
+    split; [lia|]. intros _. unfold sumsq; simpl; ro. rewrite E. split; ring.
+  - assert (Hne : l <> []) by (intros ->; cbn [length] in Hn; lia). destruct (Hl Hne) as [Hm Hv].
+    unfold acc_inv. rewrite app_length, tsum_app, sumsq_app. simpl length. simpl tsum. ro.
+    assert (HN : 1 <= IZR n) by (apply IZR_le; destruct l; [congruence|cbn [length] in Hn; lia]).
+    rewrite plus_IZR. split; [lia|]. intros _. rewrite Hv. rewrite <- Hm. split; field; lra. Qed.
+
+Lemma push_all_inv_gen l2 : forall a l1, acc_inv a l1 -> acc_inv (fold_left (push RO) l2 a) (l1 ++ l2).
+Proof. induction l2 as [|x t IH]; intros a l1 H; simpl.
+  - rewrite app_nil_r; exact H.
+  - replace (l1 ++ x :: t) with ((l1 ++ [x]) ++ t) by (rewrite <- app_assoc; reflexivity). apply IH, push_inv, H. Qed.
+Lemma push_all_inv l : acc_inv (push_all RO l) l.
+Proof. apply (push_all_inv_gen l (acc_init RO) []). simpl. split; [reflexivity|congruence]. Qed.
+
+Lemma batch_m2_expand (l : list R) m :
+  tsum RO (map (fun x => (x - m) * (x - m)) l) = sumsq l - 2 * m * tsum RO l + tlen RO l * m * m.
+Proof. unfold sumsq, tlen. induction l as [|x t IH]; simpl map; simpl tsum; simpl length; ro.
+  - rewrite tnat_0. ring.
+  - rewrite IH, tnat_S. ring. Qed.
+
+Lemma welford_batch (l : list R) : l <> [] ->
+  let '(n, m, v) := push_all RO l in
+  n = Z.of_nat (length l) /\ m = tmean RO l /\ v = batch_m2 RO l.
+Proof. intros Hne. pose proof (push_all_inv l) as H. destruct (push_all RO l) as [[n m] v].
+  destruct H as [Hn Hl]. destruct (Hl Hne) as [Hm Hv].
+  assert (HN : tlen RO l <> 0).
+  { unfold tlen. pose proof (tnat_pos (length l)). destruct l; [congruence|simpl in *; lia || (specialize (H ltac:(lia)); lra)]. }
+  assert (EN : IZR n = tlen RO l) by (rewrite Hn; reflexivity).
+  assert (Em : m = tmean RO l). { unfold tmean; ro. rewrite <- Hm, EN. field. exact HN. }
+  split; [exact Hn|]. split; [exact Em|].
+  unfold batch_m2; ro. rewrite batch_m2_expand. rewrite <- Em, Hv, <- Hm, EN. ring. Qed.
+
+Lemma welford_mean_var (l : list R) : l <> [] ->
+  acc_mean (push_all RO l) = tmean RO l /\ acc_var RO (push_all RO l) = Some (batch_var RO l).
+Proof. intros Hne. pose proof (welford_batch l Hne) as H. destruct (push_all RO l) as [[n m] v].
+  destruct H as [Hn [Hm Hv]]. split; [exact Hm|]. unfold acc_var.
+  destruct (Z.eqb_spec n 0) as [E|E]; [destruct l; [congruence|cbn [length] in Hn; lia]|].
+  unfold batch_var, tlen, tnat. rewrite Hv, Hn. reflexivity. Qed.
+
+Lemma welford_empty : acc_mean (push_all RO []) = 0 /\ acc_var RO (push_all RO []) = None.
+Proof. split; reflexivity. Qed.
+
+Lemma batch_perm (l l' : list R) : Permutation l l' ->
+  tmean RO l = tmean RO l' /\ batch_var RO l = batch_var RO l'.
+Proof. intros P. assert (Em : tmean RO l = tmean RO l').
+  { unfold tmean, tlen. rewrite (tsum_perm _ _ P), (Permutation_length P). reflexivity. }
+  split; [exact Em|]. unfold batch_var, batch_m2, tlen. rewrite Em, (Permutation_length P).
+  f_equal. apply tsum_perm. apply Permutation_map, P. Qed.
+
+Lemma welford_order (l l' : list R) : Permutation l l' ->
+  acc_mean (push_all RO l) = acc_mean (push_all RO l') /\ acc_var RO (push_all RO l) = acc_var RO (push_all RO l').
+Proof. intros P. destruct l as [|x t].
+  - apply Permutation_nil in P. subst. split; reflexivity.
+  - assert (H1 : x :: t <> []) by congruence.
+    assert (H2 : l' <> []) by (intros ->; apply Permutation_sym, Permutation_nil in P; congruence).
+    destruct (welford_mean_var _ H1) as [A1 B1]. destruct (welford_mean_var _ H2) as [A2 B2].
+    destruct (batch_perm _ _ P) as [Em Ev]. rewrite A1, A2, B1, B2, Em, Ev. split; reflexivity. Qed.
+
+(** * make_center_priors *)
+Lemma center_prior_covers cf sp org unc t : 0 < sp -> Rabs (cf - t) <= unc ->
+  let '(mu, sd) := center_prior RO cf sp org unc in
+  mu = cf * sp + org /\ sd = unc * sp /\ Rabs (mu - (t * sp + org)) <= sd.
+Proof. intros Hs H. unfold center_prior; ro. split; [reflexivity|]. split; [reflexivity|].
+  replace (cf * sp + org - (t * sp + org)) with ((cf - t) * sp) by ring.
+  rewrite Rabs_mult, (Rabs_right sp) by lra. apply Rmult_le_compat_r; lra. Qed.
+
+Lemma diffs_telescope (x : R) l : tsum RO (diffs RO (x :: l)) = last (x :: l) 0 - x.
+Proof. revert x; induction l as [|y t IH]; intros x; [simpl; ro; lra|].
+  replace (diffs RO (x :: y :: t)) with (sub RO y x :: diffs RO (y :: t)) by reflexivity.
+  cbn [tsum]. rewrite IH. ro. change (last (x :: y :: t) 0) with (last (y :: t) 0). lra. Qed.
+
+(** get_extents: (last - first) + mean spacing; on n >= 2 equally spaced samples that is n * spacing *)
+Lemma extent_formula (x y : R) t :
+  extent RO (x :: y :: t) = (last (x :: y :: t) 0 - x) * (1 + / tnat RO (S (length t))).
+Proof. unfold extent. rewrite diffs_telescope. ro. simpl length. replace (S (S (length t)) - 1)%nat with (S (length t)) by lia. ring. Qed.
+
+(** * subimage: rounding, slices, crop *)
+Local Open Scope Q_scope.
+Lemma Qfloor_bounds q : inject_Z (Qfloor q) <= q /\ q < inject_Z (Qfloor q) + 1.
+Proof. split; [apply Qfloor_le|]. pose proof (Qlt_floor q) as H. rewrite inject_Z_plus in H. exact H. Qed.
+
+Lemma rhe_cases q : let f := Qfloor q in
+  (q - inject_Z f < 1#2 /\ rhe q = f) \/
+  (1#2 < q - inject_Z f /\ rhe q = (f + 1)%Z) \/
+  (q - inject_Z f == 1#2 /\ rhe q = (if Z.even f then f else (f + 1)%Z)).
+Proof. intros f. unfold rhe. fold f. destruct (Qcompare_spec (q - inject_Z f) (1#2)) as [H|H|H].
+  - right; right. split; [exact H|reflexivity].
+  - left. split; [exact H|reflexivity].
+  - right; left. split; [exact H|reflexivity]. Qed.
+
+(** np.round returns a nearest integer ... *)
+Lemma rhe_nearest q : Qabs (q - inject_Z (rhe q)) <= 1#2.
+Proof. destruct (Qfloor_bounds q) as [L U]. apply Qabs_Qle_condition.
+  destruct (rhe_cases q) as [[H ->]|[[H ->]|[H E]]].
+  - split; lra.
+  - rewrite inject_Z_plus. change (inject_Z 1) with 1. split; lra.
+  - rewrite E. destruct (Z.even (Qfloor q)); [|rewrite inject_Z_plus; change (inject_Z 1) with 1]; split; lra. Qed.
+(** ... and at a tie the even one *)
+Lemma rhe_tie_even q : q - inject_Z (Qfloor q) == 1#2 -> Z.even (rhe q) = true.
+Proof. intros T. destruct (rhe_cases q) as [[H _]|[[H _]|[_ E]]]; [lra|lra|].
+  rewrite E. destruct (Z.even (Qfloor q)) eqn:Ev; [exact Ev|].
+  rewrite Z.even_add, Ev. reflexivity. Qed.
+Lemma rhe_int z : rhe (inject_Z z) = z.
+Proof. destruct (rhe_cases (inject_Z z)) as [[H E]|[[H E]|[H E]]]; rewrite Qfloor_Z in *.
+  - exact E. - lra. - lra. Qed.
+#[export] Instance rhe_proper : Proper (Qeq ==> eq) rhe.
+Proof. intros q q' H. unfold rhe. cbv zeta.
+  assert (F : Qfloor q = Qfloor q') by (apply Qfloor_comp, H). rewrite F.
+  assert (Cm : (q - inject_Z (Qfloor q') ?= 1#2) = (q' - inject_Z (Qfloor q') ?= 1#2)) by (rewrite H; reflexivity).
+  rewrite Cm. reflexivity. Qed.
+
+(** even size 2h on a rounded centre c: exactly [c-h, c+h) *)
+Lemma crop_extent_even c h : crop_extent c (2 * h) = ((rhe c - h)%Z, (rhe c + h)%Z).
+Proof. unfold crop_extent.
+  assert (E1 : inject_Z (rhe c) - inject_Z (2 * h) / 2 == inject_Z (rhe c - h)).
+  { unfold Z.sub. rewrite inject_Z_plus, inject_Z_opp, inject_Z_mult. change (inject_Z 2) with 2. field. }
+  assert (E2 : inject_Z (rhe c) + inject_Z (2 * h) / 2 == inject_Z (rhe c + h)).
+  { rewrite inject_Z_plus, inject_Z_mult. change (inject_Z 2) with 2. field. }
+  rewrite E1, E2, !rhe_int. reflexivity. Qed.
+
+(** odd size 2h+1: both ends are ties, rounded to even, so the crop has 2h or 2h+2 pixels, never 2h+1
+    (the docstring demands even shapes; this is what the code does with an odd one) *)
+Lemma crop_extent_odd c h :
+  crop_extent c (2 * h + 1) =
+  if Z.even (rhe c - h) then ((rhe c - h)%Z, (rhe c + h)%Z) else ((rhe c - h - 1)%Z, (rhe c + h + 1)%Z).
+Proof. unfold crop_extent. set (ci := rhe c).
+  assert (E1 : inject_Z ci - inject_Z (2 * h + 1) / 2 == inject_Z (ci - h - 1) + (1#2)).
+  { unfold Z.sub. rewrite !inject_Z_plus, !inject_Z_opp, inject_Z_mult. change (inject_Z 2) with 2.
+    change (inject_Z 1) with 1. field. }
+  assert (E2 : inject_Z ci + inject_Z (2 * h + 1) / 2 == inject_Z (ci + h) + (1#2)).
+  { rewrite !inject_Z_plus, inject_Z_mult. change (inject_Z 2) with 2. change (inject_Z 1) with 1. field. }
+  rewrite E1, E2.
+  assert (Half : forall z, rhe (inject_Z z + (1#2)) = if Z.even z then z else (z + 1)%Z).
+  { intros z. assert (F : Qfloor (inject_Z z + (1#2)) = z).
+    { pose proof (Qfloor_le (inject_Z z + (1#2))) as L. pose proof (Qlt_floor (inject_Z z + (1#2))) as U.
+      assert (A1 : (Qfloor (inject_Z z + (1#2)) < z + 1)%Z).
+      { rewrite Zlt_Qlt, inject_Z_plus. change (inject_Z 1) with 1. lra. }
+      assert (A2 : (z < Qfloor (inject_Z z + (1#2)) + 1)%Z).
+      { rewrite Zlt_Qlt. lra. }
+      lia. }
+    destruct (rhe_cases (inject_Z z + (1#2))) as [[H _]|[[H _]|[_ E]]]; rewrite F in *; [lra|lra|exact E]. }
+  rewrite !Half.
+  replace (ci - h - 1)%Z with (Z.pred (ci - h)) by lia. rewrite Z.even_pred, <- Z.negb_even.
+  replace (Z.even (ci + h)) with (Z.even (ci - h)) by (replace (ci + h)%Z with (ci - h + 2 * h)%Z by lia;
+     rewrite Z.even_add_mul_2; reflexivity).
+  destruct (Z.even (ci - h)); simpl; f_equal; unfold Z.pred; lia. Qed.
+Local Close Scope Q_scope.
+Local Open Scope nat_scope.
+
+Lemma nth_firstn_lt {A} (l : list A) m k d : k < m -> nth k (firstn m l) d = nth k l d.
+Proof. revert m k; induction l as [|x t IH]; intros m k H; [rewrite firstn_nil; reflexivity|].
+  destruct m; [lia|]. destruct k; [reflexivity|]. simpl. apply IH. lia. Qed.
+Lemma nth_skipn_add {A} (l : list A) a k d : nth k (skipn a l) d = nth (a + k) l d.
+Proof. revert l; induction a as [|a IH]; intros l; [reflexivity|].
+  destruct l; [destruct k; reflexivity|]. simpl. apply IH. Qed.
+
+Lemma slice_norm_range n i : (0 <= n)%Z -> (0 <= slice_norm n i <= n)%Z.
+Proof. intros H. unfold slice_norm. destruct (Z.ltb_spec i 0); lia. Qed.
+Lemma slice_norm_fit n i : (0 <= i <= n)%Z -> slice_norm n i = i.
+Proof. intros H. unfold slice_norm. destruct (Z.ltb_spec i 0); lia. Qed.
+
+Definition sl_lo {A} (lo : Z) (l : list A) : nat := Z.to_nat (slice_norm (Z.of_nat (length l)) lo).
+Definition sl_len {A} (lo hi : Z) (l : list A) : nat :=
+  Z.to_nat (slice_norm (Z.of_nat (length l)) hi - slice_norm (Z.of_nat (length l)) lo).
+
+Lemma pyslice_length {A} lo hi (l : list A) : length (pyslice lo hi l) = sl_len lo hi l.
+Proof. unfold pyslice, sl_len. rewrite firstn_length, skipn_length.
+  pose proof (slice_norm_range (Z.of_nat (length l)) lo ltac:(lia)).
+  pose proof (slice_norm_range (Z.of_nat (length l)) hi ltac:(lia)). lia. Qed.
+
+(** every retained element is the source element at offset + position: python's slice never moves data *)
+Lemma pyslice_nth {A} lo hi (l : list A) k d : k < sl_len lo hi l ->
+  nth k (pyslice lo hi l) d = nth (sl_lo lo l + k) l d.
+Proof. intros H. unfold pyslice. rewrite nth_firstn_lt by exact H. apply nth_skipn_add. Qed.
+
+Definition cwf {C A} (im : cimage C A) : Prop :=
+  length (cpix im) = length (cxs im) /\ Forall (fun r => length r = length (cys im)) (cpix im).
+
+Lemma Forall_firstn {A} (P : A -> Prop) l m : Forall P l -> Forall P (firstn m l).
+Proof. intros H. apply Forall_forall. intros x Hx. rewrite Forall_forall in H. apply H.
+  rewrite <- (firstn_skipn m l). apply in_or_app. left; exact Hx. Qed.
+Lemma Forall_skipn {A} (P : A -> Prop) l m : Forall P l -> Forall P (skipn m l).
+Proof. intros H. apply Forall_forall. intros x Hx. rewrite Forall_forall in H. apply H.
+  rewrite <- (firstn_skipn m l). apply in_or_app. right; exact Hx. Qed.
+
+Lemma crop_values_coords {C A} (im : cimage C A) ex ey (dc : C) (da : A) : cwf im ->
+  let out := crop im ex ey in
+  let ax := sl_lo (fst ex) (cxs im) in let ay := sl_lo (fst ey) (cys im) in
+  cwf out /\
+  length (cxs out) = sl_len (fst ex) (snd ex) (cxs im) /\
+  length (cys out) = sl_len (fst ey) (snd ey) (cys im) /\
+  forall p q, p < length (cxs out) -> q < length (cys out) ->
+    nth p (cxs out) dc = nth (ax + p) (cxs im) dc /\
+    nth q (cys out) dc = nth (ay + q) (cys im) dc /\
+    nth q (nth p (cpix out) []) da = nth (ay + q) (nth (ax + p) (cpix im) []) da.
+Proof. intros [W1 W2]. cbv zeta. unfold crop, cwf. cbn [cxs cys cpix].
+  assert (Lx : length (pyslice (fst ex) (snd ex) (cpix im)) = sl_len (fst ex) (snd ex) (cxs im)).
+  { rewrite pyslice_length. unfold sl_len. rewrite W1. reflexivity. }
+  split; [split|split; [|split]].
+  - rewrite map_length, Lx, pyslice_length. reflexivity.
+  - apply Forall_forall. intros r Hr. apply in_map_iff in Hr. destruct Hr as [r0 [<- Hr0]].
+    rewrite !pyslice_length. unfold sl_len.
+    assert (E : length r0 = length (cys im)).
+    { rewrite Forall_forall in W2. apply W2. unfold pyslice in Hr0.
+      eapply (proj1 (Forall_forall _ _) (Forall_firstn (fun x => In x (cpix im)) _ _
+               (Forall_skipn _ _ _ (proj2 (Forall_forall (fun x => In x (cpix im)) (cpix im)) (fun x H => H))))).
+      exact Hr0. }
+    rewrite E. reflexivity.
+  - apply pyslice_length.
+  - apply pyslice_length.
+  - intros p q Hp Hq. rewrite pyslice_length in Hp, Hq.
+    split; [apply pyslice_nth, Hp|]. split; [apply pyslice_nth, Hq|].
+    rewrite (nth_indep _ [] (pyslice (fst ey) (snd ey) [])) by (rewrite map_length, Lx; exact Hp).
+    rewrite (map_nth (pyslice (fst ey) (snd ey))).
+    assert (Hp' : p < sl_len (fst ex) (snd ex) (cpix im)) by (unfold sl_len in *; rewrite W1; exact Hp).
+    rewrite (pyslice_nth (fst ex) (snd ex) (cpix im) p [] Hp').
+    assert (Ex : sl_lo (fst ex) (cpix im) = sl_lo (fst ex) (cxs im)) by (unfold sl_lo; rewrite W1; reflexivity).
+    rewrite Ex. set (r := nth (sl_lo (fst ex) (cxs im) + p) (cpix im) []).
+    assert (Er : length r = length (cys im)).
+    { rewrite Forall_forall in W2. apply W2. apply nth_In. rewrite W1.
+      unfold sl_lo, sl_len in *. pose proof (slice_norm_range (Z.of_nat (length (cxs im))) (fst ex) ltac:(lia)).
+      pose proof (slice_norm_range (Z.of_nat (length (cxs im))) (snd ex) ltac:(lia)). lia. }
+    assert (Hq' : q < sl_len (fst ey) (snd ey) r) by (unfold sl_len in *; rewrite Er; exact Hq).
+    rewrite pyslice_nth by exact Hq'. unfold sl_lo. rewrite Er. reflexivity. Qed.
+
+(** a fitting crop of even size on any (fractional, half-integer, ...) centre: exactly s pixels from rhe c - s/2 *)
+Lemma crop_fits_even {A} (l : list A) c h : (0 <= h)%Z -> (0 <= rhe c - h)%Z -> (rhe c + h <= Z.of_nat (length l))%Z ->
+  let e := crop_extent c (2 * h) in
+  sl_lo (fst e) l = Z.to_nat (rhe c - h) /\ sl_len (fst e) (snd e) l = Z.to_nat (2 * h).
+Proof. intros Hh Hlo Hhi. cbv zeta. rewrite crop_extent_even. cbn [fst snd]. unfold sl_lo, sl_len.
+  rewrite !slice_norm_fit by lia. split; [reflexivity|f_equal; lia]. Qed.
+
+Lemma subimage_scalar {C A} (im : cimage C A) ndim cx cy rest s : (2 <= ndim)%nat ->
+  subimage ndim im (cx :: cy :: rest) (inl s) = Some (crop im (crop_extent cx s) (crop_extent cy s)).
+Proof. intros H. unfold subimage, crop_args. rewrite repeat_length, Nat.eqb_refl. simpl negb. cbv iota.
+  destruct ndim as [|[|n]]; [lia|lia|]. reflexivity. Qed.
+Lemma subimage_bad_arity {C A} (im : cimage C A) ndim center l : length l <> ndim ->
+  subimage ndim im center (inr l) = None.
+Proof. intros H. unfold subimage, crop_args. apply Nat.eqb_neq in H. rewrite H. reflexivity. Qed.
+
+(** * the executed instances ([QO], and [QOr] = [QO] with reduced fractions) compute the same values as the
+      R instance the theorems are about.  Stated once for any [Ops Q] whose operations commute with [Q2R];
+      unconditional, because 1/0 = 0 in Q and in R ([Rinv_0]). *)
+Local Open Scope R_scope.
+Lemma Q2R_inv' q : Q2R (/ q) = / Q2R q.
+Proof. destruct (Qeq_dec q 0) as [E|E]; [|apply Q2R_inv, E].
+  assert (E' : (/ q == 0)%Q) by (rewrite E; reflexivity).
+  rewrite (Qeq_eqR _ _ E'), (Qeq_eqR _ _ E), Generic.Q2R_0, Rinv_0. reflexivity. Qed.
+Lemma Q2R_Qred q : Q2R (Qred q) = Q2R q.
+Proof. apply Qeq_eqR, Qred_correct. Qed.
+
+Record hom (O : Ops Q) : Prop := mkHom {
+  h_zero : Q2R (zero O) = 0; h_one : Q2R (one O) = 1;
+  h_add : forall a b, Q2R (add O a b) = Q2R a + Q2R b;
+  h_mul : forall a b, Q2R (mul O a b) = Q2R a * Q2R b;
+  h_sub : forall a b, Q2R (sub O a b) = Q2R a - Q2R b;
+  h_opp : forall a, Q2R (opp O a) = - Q2R a;
+  h_inv : forall a, Q2R (inv O a) = / Q2R a;
+  h_ltb : forall a b, ltb O a b = Rltb (Q2R a) (Q2R b);
+  h_leb : forall a b, leb O a b = Rleb (Q2R a) (Q2R b);
+  h_eqb : forall a b, eqb O a b = Reqb (Q2R a) (Q2R b);
+  h_ofZ : forall z, Q2R (ofZ O z) = IZR z }.
+
+Lemma hom_QO : hom QO.
+Proof. constructor; intros; cbn [zero one add mul sub opp inv ltb leb eqb ofZ QO];
+  autorewrite with q2r; try reflexivity. apply Q2R_inv'. Qed.
+Lemma hom_QOr : hom QOr.
+Proof. constructor; intros; cbn [zero one add mul sub opp inv ltb leb eqb ofZ QOr];
+  rewrite ?Q2R_Qred; autorewrite with q2r; try reflexivity. apply Q2R_inv'. Qed.
+
+Section Link.
+Variable O : Ops Q.
+Hypothesis H : hom O.
+Ltac hq := ro; repeat first
+  [ rewrite (h_add O H) | rewrite (h_mul O H) | rewrite (h_sub O H) | rewrite (h_opp O H) | rewrite (h_inv O H)
+  | rewrite (h_ltb O H) | rewrite (h_leb O H) | rewrite (h_eqb O H) | rewrite (h_ofZ O H)
+  | rewrite (h_zero O H) | rewrite (h_one O H) ]; try reflexivity.
+
+Lemma tnat_Q_R k : Q2R (tnat O k) = tnat RO k.
+Proof. unfold tnat. hq. Qed.
+Lemma tsum_Q_R l : Q2R (tsum O l) = tsum RO (map Q2R l).
+Proof. induction l as [|x t IH]; simpl; hq. rewrite IH. reflexivity. Qed.
+
+Lemma normalize_Q_R l : map Q2R (normalize O l) = normalize RO (map Q2R l).
+Proof. unfold normalize, tlen. rewrite !map_map, map_length. apply map_ext. intros v. hq.
+  rewrite tsum_Q_R, tnat_Q_R. reflexivity. Qed.
+
+Lemma prev_pos_Q_R (v : nat -> Q) i : prev_pos O v i = prev_pos RO (fun k => Q2R (v k)) i.
+Proof. induction i as [|i IH]; simpl; [reflexivity|]. hq. rewrite IH. reflexivity. Qed.
+Lemma next_pos_Q_R (v : nat -> Q) fuel : forall i, next_pos O v i fuel = next_pos RO (fun k => Q2R (v k)) i fuel.
+Proof. induction fuel as [|fu IH]; intros i; simpl; [reflexivity|]. hq. rewrite IH. reflexivity. Qed.
+
+Lemma interp1_Q_R n (xc v : nat -> Q) i :
+  option_map Q2R (interp1 O n xc v i) = interp1 RO n (fun k => Q2R (xc k)) (fun k => Q2R (v k)) i.
+Proof. unfold interp1. rewrite <- prev_pos_Q_R, <- next_pos_Q_R. hq.
+  destruct (Rltb 0 (Q2R (v i))); [reflexivity|].
+  destruct (prev_pos O v i); destruct (next_pos O v i (n - 1 - i)); simpl; try reflexivity. f_equal. hq. Qed.
+
+Definition imQ2R (f : image (T:=Q)) : image (T:=R) := fun i j => Q2R (f i j).
+Definition cQ2R (c : nat -> Q) : nat -> R := fun i => Q2R (c i).
+
+Lemma zf_pix_Q_R nx ny xc yc (f : image (T:=Q)) i j :
+  option_map Q2R (zf_pix O nx ny xc yc f i j) = zf_pix RO nx ny (cQ2R xc) (cQ2R yc) (imQ2R f) i j.
+Proof. unfold zf_pix, imQ2R, cQ2R.
+  pose proof (interp1_Q_R nx xc (fun i' => f i' j) i) as H1. pose proof (interp1_Q_R ny yc (fun j' => f i j') j) as H2.
+  cbv beta in H1, H2. rewrite <- H1, <- H2.
+  destruct (interp1 O nx xc (fun i' => f i' j) i); destruct (interp1 O ny yc (fun j' => f i j') j); simpl;
+    try reflexivity. f_equal. unfold two. hq. Qed.
+
+Lemma seq_opt_map {A B} (g : A -> B) (l : list (option A)) :
+  seq_opt (map (option_map g) l) = option_map (map g) (seq_opt l).
+Proof. induction l as [|[x|] t IH]; simpl; [reflexivity| |reflexivity].
+  rewrite IH. destruct (seq_opt t); reflexivity. Qed.
+Lemma all_some_map {A B} (g : A -> B) nx ny (h : nat -> nat -> option A) :
+  all_some (tabulate nx ny (fun i j => option_map g (h i j))) = option_map (map (map g)) (all_some (tabulate nx ny h)).
+Proof. unfold all_some, tabulate. rewrite <- seq_opt_map. f_equal. rewrite !map_map. apply map_ext. intros i.
+  rewrite <- seq_opt_map. f_equal. rewrite map_map. reflexivity. Qed.
+Lemma all_some_ext {A} nx ny (g h : nat -> nat -> option A) : (forall i j, g i j = h i j) ->
+  all_some (tabulate nx ny g) = all_some (tabulate nx ny h).
+Proof. intros E. unfold all_some, tabulate. do 2 f_equal. apply map_ext. intros i. apply map_ext. intros j. apply E. Qed.
+
+Lemma zero_filter_Q_R nx ny xc yc (f : image (T:=Q)) :
+  option_map (map (map Q2R)) (zero_filter O nx ny xc yc f) = zero_filter RO nx ny (cQ2R xc) (cQ2R yc) (imQ2R f).
+Proof. unfold zero_filter. rewrite <- all_some_map. apply all_some_ext. intros. apply zf_pix_Q_R. Qed.
+
+Lemma interp1_ext_R n xc (u v : nat -> R) i : (forall k, u k = v k) -> interp1 RO n xc u i = interp1 RO n xc v i.
+Proof. intros E. unfold interp1. rewrite E.
+  assert (P : forall m, prev_pos RO u m = prev_pos RO v m) by (induction m as [|m IH]; simpl; [reflexivity|rewrite E, IH; reflexivity]).
+  assert (N : forall fu m, next_pos RO u m fu = next_pos RO v m fu)
+    by (induction fu as [|fu IH]; intros m; simpl; [reflexivity|rewrite E, IH; reflexivity]).
+  rewrite P, N. destruct (prev_pos RO v i); destruct (next_pos RO v i (n - 1 - i)); try reflexivity. rewrite !E. reflexivity. Qed.
+Lemma zf_pix_ext_R nx ny xc yc (f g : image (T:=R)) i j : (forall a b, f a b = g a b) ->
+  zf_pix RO nx ny xc yc f i j = zf_pix RO nx ny xc yc g i j.
+Proof. intros E. unfold zf_pix.
+  rewrite (interp1_ext_R nx xc (fun i' => f i' j) (fun i' => g i' j)) by (intros; apply E).
+  rewrite (interp1_ext_R ny yc (fun j' => f i j') (fun j' => g i j')) by (intros; apply E). reflexivity. Qed.
+
+Lemma bgc_pix_Q_R nx ny xc yc (raw bg df : image (T:=Q)) i j :
+  option_map Q2R (bgc_pix O nx ny xc yc raw bg df i j)
+  = bgc_pix RO nx ny (cQ2R xc) (cQ2R yc) (imQ2R raw) (imQ2R bg) (imQ2R df) i j.
+Proof. unfold bgc_pix.
+  rewrite (zf_pix_ext_R nx ny (cQ2R xc) (cQ2R yc) (imsub RO (imQ2R bg) (imQ2R df)) (imQ2R (imsub O bg df)))
+    by (intros; unfold imsub, imQ2R; hq).
+  rewrite <- zf_pix_Q_R. destruct (zf_pix O nx ny xc yc (imsub O bg df) i j); simpl; [|reflexivity].
+  f_equal. unfold imQ2R. hq. Qed.
+
+Lemma bg_correct_Q_R g nx ny xc yc (raw bg df : image (T:=Q)) :
+  option_map (map (map Q2R)) (bg_correct O g nx ny xc yc raw bg df)
+  = bg_correct RO g nx ny (cQ2R xc) (cQ2R yc) (imQ2R raw) (imQ2R bg) (imQ2R df).
+Proof. unfold bg_correct. destruct g; [|reflexivity]. rewrite <- all_some_map. apply all_some_ext. intros. apply bgc_pix_Q_R. Qed.
+
+Lemma idx_sum_Q_R n (g : nat -> Q) (h : nat -> R) : (forall i, Q2R (g i) = h i) -> Q2R (idx_sum O n g) = idx_sum RO n h.
+Proof. intros E. unfold idx_sum. rewrite tsum_Q_R, map_map. f_equal. apply map_ext. exact E. Qed.
+
+Lemma dt_seq_Q_R n (v : nat -> Q) k : Q2R (dt_seq O n v k) = dt_seq RO n (cQ2R v) k.
+Proof. unfold dt_seq, cQ2R. hq. rewrite !tnat_Q_R.
+  rewrite (idx_sum_Q_R n (tnat O) (tnat RO)) by apply tnat_Q_R.
+  rewrite (idx_sum_Q_R n (fun i => mul O (tnat O i) (tnat O i)) (fun i => tnat RO i * tnat RO i))
+    by (intros; hq; rewrite !tnat_Q_R; reflexivity).
+  rewrite (idx_sum_Q_R n v (fun i => Q2R (v i))) by reflexivity.
+  rewrite (idx_sum_Q_R n (fun i => mul O (tnat O i) (v i)) (fun i => tnat RO i * Q2R (v i)))
+    by (intros; hq; rewrite !tnat_Q_R; reflexivity).
+  reflexivity. Qed.
+
+Lemma detrend_Q_R nx ny (f : image (T:=Q)) i j : Q2R (detrend O nx ny f i j) = detrend RO nx ny (imQ2R f) i j.
+Proof. unfold detrend. rewrite dt_seq_Q_R. unfold cQ2R.
+  apply dt_seq_ext; intros; apply dt_seq_Q_R. Qed.
+
+Definition accQ2R (a : acc (T:=Q)) : acc (T:=R) := let '(n, m, v) := a in (n, Q2R m, Q2R v).
+Lemma push_Q_R a x : accQ2R (push O a x) = push RO (accQ2R a) (Q2R x).
+Proof. destruct a as [[n m] v]. unfold push, accQ2R. destruct (Z.eqb (n + 1) 1); (f_equal; [f_equal|]); hq. Qed.
+Lemma push_all_Q_R l : accQ2R (push_all O l) = push_all RO (map Q2R l).
+Proof. unfold push_all. assert (G : forall a, accQ2R (fold_left (push O) l a) = fold_left (push RO) (map Q2R l) (accQ2R a)).
+  { induction l as [|x t IH]; intros a; simpl; [reflexivity|]. rewrite IH, push_Q_R. reflexivity. }
+  rewrite G. unfold acc_init, accQ2R. hq. Qed.
+Lemma acc_mean_Q_R (a : acc (T:=Q)) : Q2R (acc_mean a) = acc_mean (accQ2R a).
+Proof. destruct a as [[n m] v]. reflexivity. Qed.
+Lemma acc_var_Q_R a : option_map Q2R (acc_var O a) = acc_var RO (accQ2R a).
+Proof. destruct a as [[n m] v]. unfold acc_var, accQ2R. destruct (Z.eqb n 0); simpl; [reflexivity|]. f_equal. hq. Qed.
+
+Lemma center_prior_Q_R cf sp org unc :
+  (let '(mu, sd) := center_prior O cf sp org unc in (Q2R mu, Q2R sd)) = center_prior RO (Q2R cf) (Q2R sp) (Q2R org) (Q2R unc).
+Proof. unfold center_prior. f_equal; hq. Qed.
+End Link.
